@@ -303,7 +303,11 @@ impl<'a, R: CharRead> Lexer<'a, R> {
                 })
             }
         } else {
-            Err(self.unexpected_char(c))
+            // c starts no token at all: it is consumed along with the
+            // report, so that the next read continues after it.
+            let err = self.unexpected_char(c);
+            self.skip_char(c);
+            Err(err)
         }
     }
 
